@@ -45,9 +45,13 @@ def jCol (c : ColumnOut) : Json := Json.mkObj [("name", c.name), ("dtype", c.dty
 
 def answer (j : Json) : Except String Json := do
   let h ← (← (← j.getObjVal? "chain").getArr?).toList.mapM classOf
-  -- every prefix of the chain is a class of its own: compile each
-  let outs := (List.range h.length).map fun i =>
-    match compile true true (h.take (i + 1)) with
+  -- every class is compiled from its own lineage (the classes it inherits from, most basic first, itself last);
+  -- for a linear chain that is the prefix
+  let lin : List (List Nat) ← match j.getObjVal? "lineages" with
+    | .ok l => (← l.getArr?).toList.mapM fun x => do (← x.getArr?).toList.mapM fun y => y.getNat?
+    | .error _ => pure ((List.range h.length).map fun i => List.range (i + 1))
+  let outs := lin.map fun idxs =>
+    match compile true true (idxs.filterMap fun k => h[k]?) with
     | .ok s => Json.mkObj [("columns", Json.arr (s.columns.map jCol).toArray), ("dfChecks", toJson s.dfChecks),
         ("dfParsers", toJson s.dfParsers), ("config", jPairs s.config)]
     | .error .missingAnnotation => Json.str "missingAnnotation"
